@@ -201,6 +201,47 @@ def judge_scen(d, failat):
     return pr
 
 
+def scen_part(ctx, exe, have_drv, problems, exits):
+    import x_c09obl
+    listing, _, _ = ctx.run_lines(exe, ["list"])
+    base = []
+    for item in listing[0].split():
+        name, fn, nvar = item.split(":")
+        for v in range(int(nvar)):
+            base.append(("scen %s %d 0" % (name, v), name, v))
+    lines = x_c09obl.run_scen(ctx, exe, [b[0] for b in base])
+    ops2, fail2 = [], []
+    for (op, name, v), line in zip(base, lines):
+        d = x_c09obl.parse_scen(line)
+        ops2.append(op)
+        fail2.append(0)
+        n = d.get("allocs", 0) if "crash" not in d else 0
+        ks = list(range(1, n + 1))
+        if ctx.tier == "quick" and len(ks) > 4:
+            ks = ks[:3] + [ctx.rng.choice(ks[3:])]
+        for k in ks:
+            ops2.append("scen %s %d %d" % (name, v, k))
+            fail2.append(k)
+    out2 = x_c09obl.run_scen(ctx, exe, ops2)
+    res2 = [x_c09obl.parse_scen(l) for l in out2]
+    for op, k, d in zip(ops2, fail2, res2):
+        for p in judge_scen(d, k):
+            problems.append(("%s:%s" % (d.get("fn", op.split()[1]), "alloc-failure" if k else "exit%s" % op.split()[2]), op, p))
+        if "crash" not in d:
+            exits.add((d["fn"], d["code"], d["own"], d["out"]))
+    path_bad = []
+    if have_drv:
+        pops = ["path %s %s %s" % (d["fn"], "ok" if d["code"] == 0 else "bad", d["own"]) for d in res2 if "crash" not in d]
+        pidx = [i for i, d in enumerate(res2) if "crash" not in d]
+        pout, perr, prc = ctx.run_lines(ctx.driver(), pops)
+        if prc != 0 or len(pout) != len(pops):
+            raise RuntimeError("drv_c09 failed: " + perr[-400:])
+        for i, po, o in zip(pidx, pops, pout):
+            if o not in ("yes", "yes-inlined"):
+                path_bad.append((ops2[i], po, o))
+    return ops2, fail2, res2, path_bad
+
+
 def run(ctx):
     import x_c09obl
     terr, info = None, {}
@@ -243,44 +284,15 @@ def run(ctx):
         ctx.cov["chk_ops"] = n_chk
         ctx.cov["chk_rejected"] = sum(1 for c in c_out if c != "pass")
         ctx.samples += [{"op": op, "impl": c, "model": p} for op, c, p in list(zip(run_ops, c_out, run_pred))[::max(1, n_chk // 6)][:6]]
-    # ---- (b), (c)
-    listing, _, _ = ctx.run_lines(exe, ["list"])
-    base = []
-    for item in listing[0].split():
-        name, fn, nvar = item.split(":")
-        for v in range(int(nvar)):
-            base.append(("scen %s %d 0" % (name, v), name, v))
-    lines = x_c09obl.run_scen(ctx, exe, [b[0] for b in base])
-    ops2, fail2 = [], []
-    for (op, name, v), line in zip(base, lines):
-        d = x_c09obl.parse_scen(line)
-        ops2.append(op)
-        fail2.append(0)
-        n = d.get("allocs", 0) if "crash" not in d else 0
-        ks = list(range(1, n + 1))
-        if ctx.tier == "quick" and len(ks) > 4:
-            ks = ks[:3] + [ctx.rng.choice(ks[3:])]
-        for k in ks:
-            ops2.append("scen %s %d %d" % (name, v, k))
-            fail2.append(k)
-    out2 = x_c09obl.run_scen(ctx, exe, ops2)
-    res2 = [x_c09obl.parse_scen(l) for l in out2]
-    exits = set()
-    for op, k, d in zip(ops2, fail2, res2):
-        for p in judge_scen(d, k):
-            problems.append(("%s:%s" % (d.get("fn", op.split()[1]), "alloc-failure" if k else "exit%s" % op.split()[2]), op, p))
-        if "crash" not in d:
-            exits.add((d["fn"], d["code"], d["own"], d["out"]))
-    path_bad = []
-    if have_drv:
-        pops = ["path %s %s %s" % (d["fn"], "ok" if d["code"] == 0 else "bad", d["own"]) for d in res2 if "crash" not in d]
-        pidx = [i for i, d in enumerate(res2) if "crash" not in d]
-        pout, perr, prc = ctx.run_lines(ctx.driver(), pops)
-        if prc != 0 or len(pout) != len(pops):
-            raise RuntimeError("drv_c09 failed: " + perr[-400:])
-        for i, po, o in zip(pidx, pops, pout):
-            if o not in ("yes", "yes-inlined"):
-                path_bad.append((ops2[i], po, o))
+    # ---- (b), (c): in every configuration of this tier
+    ops2, fail2, res2, exits, path_bad = [], [], [], set(), []
+    for cfg in (["asan"] if ctx.tier == "quick" else ["asan", "rel", "fast", "O0"]):
+        exe_c = exe if cfg == "asan" else ctx.cc("harness/c09.c", cfg, extra=x_c09obl.WRAP)
+        o2, f2, r2, pb = scen_part(ctx, exe_c, have_drv, problems, exits)
+        ops2 += o2
+        fail2 += f2
+        res2 += r2
+        path_bad += pb
     ctx.cov["alloc_failure_output_modified"] = sorted({d["fn"] for k, d in zip(fail2, res2) if k and "crash" not in d and d["failed"] and d["out"] != 0})
     ctx.cov.update({"ops_total": n_chk + len(ops2), "scenario_runs": len(ops2), "alloc_failure_runs": sum(1 for k in fail2 if k),
                     "auth_failure_runs": sum(1 for d in res2 if "crash" not in d and d["code"] in (511, 513)),
